@@ -409,6 +409,15 @@ class Child:
         self.tree = peval.read_tree(self.cwd, self.tmpdir)
         res = peval.evaluate(self)
         shutil.rmtree(self.base, ignore_errors=True)
+        # process-free variants carried by this run (they use this core while they are at it)
+        if self.task.get('counter'):
+            from . import libvariants
+            bad, n, nrec = libvariants.counter_only(self.task['counter']['seed'], self.task['counter']['n'], m2=self.m2)
+            res['counter_only'] = [bad, n, nrec]
+        if self.task.get('library'):
+            from . import libvariants
+            bad, n, st = libvariants.c17_library(self.task['library']['seed'], self.task['library']['n'])
+            res['c17_library'] = [bad, n, dict(st.probes)]
         return res
 
 
